@@ -412,8 +412,9 @@ impl State {
     fn build_abort(&mut self, mark: (usize, usize, usize, usize, usize, usize)) {
         let (depth, inputs, ds_len, sources, heap, rl_len) = mark;
         if self.nested.len() <= depth {
-            // the source was built, it failed while running: halt it
-            self.halt();
+            // the source was built, it failed while running: it stays stopped at the
+            // failing instruction, as after compile + run (the host may raise a limit
+            // and continue it); the next source halts it, see build_mark
             return;
         }
         // what its meta blocks logged refers to code that goes away now
